@@ -295,6 +295,20 @@ func (p *textProgressBar) writeProgress(progress string) {
 	_ = writeAll(p.writer, data)
 }
 
+// getDisplayStep returns the current step limited to the range [0, fileSize], so that a
+// step beyond the file size (or an invalid size) can neither push the percentage out of
+// 0..100 nor make the length of a part of the progress bar negative.
+func (p *textProgressBar) getDisplayStep() int64 {
+	step := p.fileStep
+	if step < 0 {
+		step = 0
+	}
+	if step > p.fileSize {
+		step = p.fileSize
+	}
+	return step
+}
+
 func (p *textProgressBar) showProgress() {
 	now := timeNowFunc()
 	if p.lastUpdateTime != nil && now.Sub(*p.lastUpdateTime) < 200*time.Millisecond {
@@ -304,7 +318,7 @@ func (p *textProgressBar) showProgress() {
 
 	percentage := "100%"
 	if p.fileSize != 0 {
-		percentage = fmt.Sprintf("%.0f%%", math.Round(float64(p.fileStep)*100.0/float64(p.fileSize)))
+		percentage = fmt.Sprintf("%.0f%%", math.Round(float64(p.getDisplayStep())*100.0/float64(p.fileSize)))
 	}
 	total := convertSizeToString(float64(p.fileStep))
 	speed := p.recentSpeed.getSpeed(p.fileStep, &now)
@@ -407,7 +421,7 @@ func (p *textProgressBar) getProgressBar(length int) string {
 	totalSize := length - 2
 	fullSize := totalSize
 	if p.fileSize != 0 {
-		fullSize = int(math.Round((float64(totalSize) * float64(p.fileStep)) / float64(p.fileSize)))
+		fullSize = int(math.Round((float64(totalSize) * float64(p.getDisplayStep())) / float64(p.fileSize)))
 	}
 	emptySize := totalSize - fullSize
 	if p.colorA == nil || p.colorB == nil {
